@@ -696,10 +696,9 @@ mutual
         | some res => do
           let (v, s3) ← res
           let consumed := s3.pos - s2.pos
-          -- `skip_bits(length - consumed)`: when the alternative read more than the open type
-          -- holds, the number is negative, passes the out-of-data test and moves the read
-          -- position BACK to the end of the open type
-          if consumed > 8 * len then .ok (v, ⟨s2.pos + 8 * len, s2.bs.drop (8 * len)⟩)
+          -- an alternative that read more than its open type holds is rejected (since repair ace6523 of /repo;
+          -- before it `skip_bits(length - consumed)` with a negative count moved the read position BACK)
+          if consumed > 8 * len then .error .decodeError
           else do
             let (_, s4) ← readBits (8 * len - consumed) s3
             .ok (v, s4)
